@@ -494,3 +494,10 @@ def LEN(lst):
 
 
 BUILTINS = {k: v for k, v in list(globals().items()) if k.isupper() or k in ("Witness",)}
+
+
+def LISTV(x):
+    return isinstance(x, list)
+
+
+BUILTINS = {k: v for k, v in list(globals().items()) if k.isupper() or k in ("Witness",)}
